@@ -196,10 +196,8 @@ func genCustodian(r *Rand, i int, tier string) []string {
 		for _, e := range es {
 			switch r.Intn(8) {
 			case 0: // not in the previous set: new
-			case 1, 2: // payee changed
-				p := &c34Entry{cust: e.cust, payee: c34Addr(r), signer: e.signer}
-				p.extra = c34Encode(p.cust, p.payee, p.signer, net)
-				prevEntries = append(prevEntries, p)
+			case 1, 2: // the previous entry differs from the new one in a single field
+				prevEntries = append(prevEntries, c34Variant(r, e, net))
 			default:
 				if sameCust && !r.Chance(1, 10) || r.Chance(2, 3) {
 					prevEntries = append(prevEntries, e)
@@ -213,9 +211,7 @@ func genCustodian(r *Rand, i int, tier string) []string {
 			prevEntries = prevEntries[:0]
 			for _, e := range es {
 				if r.Chance(1, 4) {
-					p := &c34Entry{cust: e.cust, payee: c34Addr(r), signer: e.signer}
-					p.extra = c34Encode(p.cust, p.payee, p.signer, net)
-					prevEntries = append(prevEntries, p)
+					prevEntries = append(prevEntries, c34Variant(r, e, net))
 				} else {
 					prevEntries = append(prevEntries, e)
 				}
@@ -347,6 +343,28 @@ func genCustodian(r *Rand, i int, tier string) []string {
 		lines = append(lines, fmt.Sprintf("parse %d %s", r.Intn(2), Hex(extra)))
 	}
 	return lines
+}
+
+// c34Variant derives the previous-state counterpart of an entry by changing exactly one field:
+// payee address (whole, spend key only, view key only), custodian view key only, signer / node id.
+// Spend keys that are kept keep their private keys, so every variant is fully signed.
+func c34Variant(r *Rand, e *c34Entry, net crypto.Hash) *c34Entry {
+	p := &c34Entry{cust: e.cust, payee: e.payee, signer: e.signer}
+	fresh := c34Addr(r)
+	switch r.Intn(8) {
+	case 0, 1: // another payee altogether
+		p.payee = fresh
+	case 2, 3: // payee keeps its spend key, view key differs
+		p.payee.PrivateViewKey, p.payee.PublicViewKey = fresh.PrivateViewKey, fresh.PublicViewKey
+	case 4: // payee keeps its view key, spend key differs
+		p.payee.PrivateSpendKey, p.payee.PublicSpendKey = fresh.PrivateSpendKey, fresh.PublicSpendKey
+	case 5, 6: // custodian keeps its spend key, view key differs
+		p.cust.PrivateViewKey, p.cust.PublicViewKey = fresh.PrivateViewKey, fresh.PublicViewKey
+	default: // another signer (node id and signer signature differ, addresses do not)
+		p.signer = fresh
+	}
+	p.extra = c34Encode(p.cust, p.payee, p.signer, net)
+	return p
 }
 
 func c34GenEncode(r *Rand, net crypto.Hash) []string {
